@@ -40,10 +40,10 @@ package validation
 //verif:override crypto/ed25519.Verify -> verifC02Verify
 //verif:override github.com/bytom/bytom/protocol/vm.Disassemble -> verifC02Disassemble
 //verif:override encoding/hex.EncodeToString -> verifC02Hex
-//verif:obligation fn=VerifC02P2WPKH args=2,0;1,0 nooverride=verifC02Verify validate=12 secs=3000 timeout=120000
-//verif:obligation fn=VerifC02P2WPKH args=2,1;0,1 validate=12 secs=3000 timeout=120000
-//verif:obligation fn=VerifC02P2WSH args=1,1,0,4,0;2,1,0,3,0;2,2,0,3,0 nooverride=verifC02Verify validate=10 secs=3000 timeout=120000
-//verif:obligation fn=VerifC02P2WSH args=1,1,0,4,1;2,1,0,3,1;2,2,0,3,1;2,2,2,1,1 validate=10 secs=3000 timeout=120000
+//verif:obligation fn=VerifC02P2WPKH args=2,0;1,0 nooverride=verifC02Verify validate=24 secs=3000 timeout=120000
+//verif:obligation fn=VerifC02P2WPKH args=2,1;0,1 validate=24 secs=3000 timeout=120000
+//verif:obligation fn=VerifC02P2WSH args=1,1,0,4,0;2,1,0,3,0;2,2,0,3,0 nooverride=verifC02Verify validate=24 secs=3000 timeout=120000
+//verif:obligation fn=VerifC02P2WSH args=1,1,0,4,1;2,1,0,3,1;2,2,0,3,1;2,2,2,1,1 validate=24 secs=3000 timeout=120000
 //verif:obligation fn=VerifC02P2WPKH args=3,0 nooverride=verifC02Verify tier=thorough secs=3000 timeout=120000
 //verif:obligation fn=VerifC02P2WPKH args=3,1 tier=thorough secs=3000 timeout=120000
 //verif:obligation fn=VerifC02P2WSH args=2,2,0,4,0;2,2,1,3,0;3,2,0,4,0;3,3,0,3,0 nooverride=verifC02Verify tier=thorough secs=3000 timeout=120000
